@@ -6,5 +6,5 @@ Require Import CV.Quad.
 Extraction Language OCaml.
 Extraction "model_quad.ml"
   Quad.build_nm Quad.build_nm_int Quad.create Quad.create_star0 Quad.create_bipoint0 Quad.create_clique0
-  Quad.add_penalty Quad.finalize Quad.row_sum Quad.mat_vec Quad.bipoint_energy Quad.star_energy
+  Quad.add_penalty Quad.finalize Quad.solver_input Quad.row_sum Quad.mat_vec Quad.bipoint_energy Quad.star_energy
   Quad.s_mat Quad.s_rhs Quad.s_init Quad.nm_nets Quad.n_weight Qred.
